@@ -1,6 +1,7 @@
 package checks
 
 import (
+	"strings"
 	"verif.local/harness/cat"
 	"verif.local/harness/fw"
 	"verif.local/harness/h"
@@ -135,7 +136,20 @@ func init() {
 			L, LP = 5, 4
 		}
 		rows, pairs := rowsAndPairs()
+		// ContextReset replaces the context by design (it is not a pass-through operator for contexts): the generic
+		// clauses do not apply behind it; it has a scenario of its own below (new context visible, never nil)
+		noReset := func(in []cat.Row) []cat.Row {
+			var out []cat.Row
+			for _, r := range in {
+				if !strings.Contains(r.Name, "ContextReset") {
+					out = append(out, r)
+				}
+			}
+			return out
+		}
+		rows, pairs = noReset(rows), noReset(pairs)
 		var scns []fw.Scenario
+		scns = append(scns, c09ContextReset())
 		var ctxWithValue cat.Row
 		for _, r := range rows {
 			if r.Name == "ContextWithValue" {
